@@ -851,6 +851,46 @@ PROPS["C14"] = dict(
                  "the values of the static helpers (Identity, Zero, Generator, InnerWeights) are tied to the model by the exact correspondence; data races at the memory-model level and anything inside Eigen are outside the model: covered by the ThreadSanitizer and plain stress runs (support, not proof)"],
 )
 
+
+def c19_matrix(pid, P, tier, seed, log):
+    """the whole API matrix against the current tree (compile, link, run, forwarding), then the Coq obligation on the results"""
+    import c19, api_matrix as am
+    known = [k for k in vlib.load_known() if k.get("status") == "known" and k.get("property") == "C19"]
+    separate = set((k["match"]["entry"], st) for k in known for st in k["match"].get("storage", []))
+    res = c19.run_matrix(log=log, separate=separate)
+    bad = {k: v for k, v in res.items() if not v[0]}
+    raw = []
+    by_entry = {}
+    for (i, g, sc, st), (ok, why) in sorted(bad.items()):
+        by_entry.setdefault((am.ENTRIES[i][0], st), []).append((g, sc, why))
+    for (name, st), lst in by_entry.items():
+        g0, sc0, why = lst[0]
+        src, _ = am.unit(g0, sc0, st, only=[i for i, en in enumerate(am.ENTRIES) if en[0] == name][0])
+        raw.append(("pred", dict(group="api", pred="cell", entry=name, storage=st, pair="%s [%s]" % (name, st), scalar="-", cells=len(lst)),
+                    "`%s` with %s operands does not compile / link / forward for %d cells (%s): %s" % (name, {"owning": "owning", "map": "Eigen::Map", "cmap": "Eigen::Map<const>"}[st], len(lst), ", ".join(sorted(set(g for g, _, _ in lst)))[:120], why[:300]),
+                    dict(kind="api-cell", entry=name, storage=st, cells=[(g, sc) for g, sc, _ in lst], diagnostic=why, client=src), True))
+    # a listed finding whose cells all pass now is reported too (the file must be updated, a check never edits it)
+    excused = [(n, g, sc, st) for (n, g, sc, st) in am.cells() if (n, st) in separate]
+    okc, out = c19.coq_obligation(res, log=log, excused=excused)
+    cov = dict(api_cells=len(res), api_cells_failing=len(bad), api_entries=len(am.ENTRIES), api_groups=list(am.GROUPS), api_scalars=am.SCALARS, api_storages=am.STORAGES,
+               exhaustive=True, coq_obligation="run_ok: %s" % ("Qed" if okc else "fails (some cell is not OK)"))
+    log("API matrix: %d cells, %d failing; Coq obligation run_ok: %s" % (len(res), len(bad), "Qed" if okc else "fails"))
+    if not okc and not bad:
+        raw.append(("proof", dict(file="ApiMatrixGen.v"), "the regenerated obligation run_ok does not check: %s" % out[-300:], dict(kind="proof", theorem="run_ok (build/ApiMatrixGen.v)", detail=out[-2000:]), False))
+    return raw, cov
+
+PROPS["C19"] = dict(
+    vfiles=["Properties_C19.v"], level="other",
+    groups=BASE_GROUPS,
+    corr_ops=["AliasGT", "AliasGG", "AliasG", "AliasT", "AliasGV", "AliasId"],
+    preds=[],
+    extra=[c19_matrix],
+    n=dict(quick=(4, 0), thorough=(40, 0)),
+    assumptions=["exhaustive enumeration, not proof: there is no formal C++ semantics among the installed tools, so compilation / overload resolution / template instantiation are decided by running the compiler on every cell of the matrix; Coq enumerates the cells (ApiMatrix.v: all_cells, complete by theorem) and checks the regenerated obligation that every cell has an OK result",
+                 "matrix = 115 documented entries (README operation table and Jacobian section, Writing-generic-code.md, functions.h, the three algorithm headers) x 8 groups (SO2, SE2, SO3, SE3, SE_2_3, SGal3, Rn, a Bundle) x {double, float} x {owning, Eigen::Map, Eigen::Map<const>}, minus the cells the applicability rule excludes (mutation of a const view, containers of views, rotation() of Rn ...)",
+                 "each cell: the documented spelling compiled and linked (g++ -std=c++11) in a program that also evaluates the canonical member on owning copies and compares the two results (64 ulp)"],
+)
+
 # ------------------------------------------------------------------ generic engine
 def mkgen(pid, seed, salt=0):
     return G((seed * 1000003 + zlib.crc32(pid.encode()) + salt) & 0x7fffffff)
@@ -1098,4 +1138,20 @@ def replay(pid, P, path):
 
 def extra_specs():
     """further harness binaries the registered checks need (built by tools/setup to warm the cache)"""
-    return []
+    specs = []
+    base = list(corr.GSETS.keys())
+    for sc in ("q", "d", "f"): specs += corr.harness_specs(base, False, False, sc)          # assertion-enabled builds (C08 walks, C13)
+    specs += corr.harness_specs(base, True, False, "f")                                       # float, NDEBUG (C08, C12, C13)
+    specs += corr.harness_specs(base, True, False, "h")                                       # 100-digit (C02, C03, C05)
+    for sc in ("D", "E"): specs += corr.harness_specs(base, True, 2, sc)                     # dual numbers (C12)
+    bset = sorted(set(corr.BUNDLES[b] for b in BUNDLES_QUICK))
+    for sc in ("q", "d"): specs += corr.harness_specs(bset, True, False, sc)                 # bundle layouts (C11, C14)
+    specs += [dict(name="hsan%s" % s_, source="main.cpp", defines=["-DVQ_GROUPSET=%s" % s_, "-DVQ_SCALAR=1"],
+                   flags=("-std=c++11", "-O1", "-g", "-fsanitize=address,undefined", "-fno-sanitize-recover=all", "-fno-omit-frame-pointer"), libs=("-lgmpxx", "-lgmp", "-lmpfr")) for s_ in base]
+    specs += [dict(name="threads_plain", source="threads.cpp", defines=[], flags=("-std=c++11", "-O2", "-pthread"), libs=()),
+              dict(name="threads_tsan", source="threads.cpp", defines=[], flags=("-std=c++11", "-O1", "-g", "-fsanitize=thread"), libs=(), compiler="clang++")]
+    seen = set(); out = []
+    for sp in specs:
+        if sp["name"] in seen: continue
+        seen.add(sp["name"]); out.append(sp)
+    return out
